@@ -1,4 +1,5 @@
 import Cell2v.Model.Graph
+import Cell2v.Spec.C04
 /-!
 Soundness of the executable reachability checks of `Model/Graph.lean` (C04).
 -/
@@ -106,3 +107,26 @@ theorem fwd_sound' {E : List (Nat × Nat)} (k : Nat) (R : List Nat) (x : Nat)
   fwd_sound k (ofListB R) (fun y hy => ⟨y, memB_ofListB hy, Reach.refl y⟩) x hx
 
 end Cell2v.Graph
+
+namespace Cell2v.Spec.C04
+open Cell2v.Graph
+
+/-- generic lifting of the Boolean check to paths -/
+theorem entry_of_check (G : CallGraph) (h : entryCheck G = true) (r s : Nat)
+    (hr : r ∈ forbiddenRoots G) (hs : s ∈ svcNodes G) : ¬ Reach (directEdges G) r s := by
+  intro hreach
+  simp only [entryCheck, entryCheckWith, Bool.and_eq_true] at h
+  obtain ⟨⟨⟨hc, hsv⟩, hspawn⟩, hexp⟩ := h
+  have hsD : memB (danger G) s = true := (List.all_eq_true.mp hsv) s hs
+  have hrD : memB (danger G) r = true := closedBack_sound hc hreach hsD
+  rcases List.mem_append.mp hr with hr | hr
+  · have := (List.all_eq_true.mp hspawn) r hr
+    rw [hrD] at this; cases this
+  · have hx := List.mem_filter.mp hr
+    have := (List.all_eq_true.mp hexp) r hx.1
+    rw [hrD] at this
+    simp only [Bool.not_true, Bool.false_or] at this
+    have h2 := hx.2
+    rw [this] at h2; cases h2
+
+end Cell2v.Spec.C04
